@@ -10,8 +10,9 @@ import (
 )
 
 // RetSpec selects the returns of a function that count as "the outcome of interest".
-//   Index: result index (-1 = last).
-//   Want:  "nil" (error result is nil: success), "nonnil", "true", "false", "any"
+//
+//	Index: result index (-1 = last).
+//	Want:  "nil" (error result is nil: success), "nonnil", "true", "false", "any"
 type RetSpec struct {
 	Index int
 	Want  string
@@ -36,8 +37,8 @@ type RetSink struct {
 	// Chain: for nested phis (a && b || c) the sequence of blocks the path must traverse, farthest first,
 	// ending with Pred; nil when Pred alone (or nothing) selects the value.
 	Chain []*ssa.BasicBlock
-	Lit  *Lit            // extra condition under which this return has the outcome (value not constant)
-	Desc string
+	Lit   *Lit // extra condition under which this return has the outcome (value not constant)
+	Desc  string
 }
 
 var nonNilErrCallee = regexp.MustCompile(`^(fmt\.Errorf|errors\.New|.*serrors\.Wrap|.*\.New\w*Error|.*reconcile\.TerminalError|.*\.Errorf|.*errors\.New\w*|.*\.NewNotFound|.*\.NewConflict)$`)
